@@ -98,15 +98,30 @@ def norm_cmp(e, truth=True):
         truth = not truth
     if isinstance(e, tuple) and e[0] == "bin":
         op, a, b = e[1], e[2], e[3]
+        r = None
         if op == "Ge":
-            return ("Lt", a, b, not truth)
-        if op == "Gt":
-            return ("Le", a, b, not truth)
-        if op == "Ne":
-            return ("Eq", a, b, not truth)
-        if op in ("Lt", "Le", "Eq"):
-            return (op, a, b, truth)
+            r = ("Lt", a, b, not truth)
+        elif op == "Gt":
+            r = ("Le", a, b, not truth)
+        elif op == "Ne":
+            r = ("Eq", a, b, not truth)
+        elif op in ("Lt", "Le", "Eq"):
+            r = (op, a, b, truth)
+        if r is not None and isinstance(r[1], tuple) and r[1][0] == "const" and not (isinstance(r[2], tuple) and r[2][0] == "const"):
+            # a constant on the left (`K > x`) is the mirrored spelling of `x < K`: keep constants on the right so
+            # that every rule sees one orientation.  a < b == t <=> b <= a == !t ; a <= b == t <=> b < a == !t
+            r = {"Lt": ("Le", r[2], r[1], not r[3]), "Le": ("Lt", r[2], r[1], not r[3]), "Eq": ("Eq", r[2], r[1], r[3])}[r[0]]
+        return r
     return None
+
+
+def cmp_forms(e, truth=True):
+    """norm_cmp plus the same comparison with mirrored operands (`K > x` for `x < K`): both spellings of one test"""
+    n = norm_cmp(e, truth)
+    if not n:
+        return []
+    m = {"Lt": ("Le", n[2], n[1], not n[3]), "Le": ("Lt", n[2], n[1], not n[3]), "Eq": ("Eq", n[2], n[1], n[3])}[n[0]]
+    return [n, m]
 
 
 def strip_not(e, truth=True):
@@ -173,7 +188,12 @@ def cmp_pred(op, lhs_pred, rhs_pred, truth):
         if not isinstance(lab, bool):
             return False
         n = norm_cmp(c, lab)
-        return bool(n and n[0] == op and n[3] is truth and lhs_pred(n[1]) and rhs_pred(n[2]))
+        if not n:
+            return False
+        # the same comparison with its operands mirrored (`10 > len` for `len < 10`) is the same test:
+        # a < b == t  <=>  b <= a == !t ;  a <= b == t  <=>  b < a == !t ;  a == b  <=>  b == a
+        m = {"Lt": ("Le", n[2], n[1], not n[3]), "Le": ("Lt", n[2], n[1], not n[3]), "Eq": ("Eq", n[2], n[1], n[3])}[n[0]]
+        return any(x[0] == op and x[3] is truth and lhs_pred(x[1]) and rhs_pred(x[2]) for x in (n, m))
 
     return p
 
